@@ -32,10 +32,22 @@ WmtsCapOK ==
             /\ <<m.mw, m.mh>> = GridSize(G, i - 1)
             /\ <<m.tlx, m.tly>> = TopLeft(G, i - 1)
 
+\* WMS-C TileSet of the layer = model (resolutions of the public levels, tile size); its BoundingBox is Data.wmsc.box
+WmscCapOK ==
+  Data.wmsc.offered =>
+    /\ Data.wmsc.w = G.tw /\ Data.wmsc.h = G.th
+    /\ Len(Data.wmsc.res) = Cardinality(TmsOrders(G))
+    /\ \A i \in 1 .. Len(Data.wmsc.res) : Data.wmsc.res[i] = Res(G, TmsLevel(G, i - 1))
+WBox == B4(Data.wmsc.box)
+
 \* --- tiles ---
 \* client rectangle computed from the REAL capabilities
 RealClient(c) ==
-  IF c.f \in {"wmts", "tms_nw"}
+  IF c.f = "wmsc"
+    THEN LET r == Data.wmsc.res[c.a[3] + 1] IN
+         <<WBox[1] + c.a[1] * Data.wmsc.w * r, WBox[2] + c.a[2] * Data.wmsc.h * r,
+           WBox[1] + (c.a[1] + 1) * Data.wmsc.w * r, WBox[2] + (c.a[2] + 1) * Data.wmsc.h * r>>
+  ELSE IF c.f \in {"wmts", "tms_nw"}
     THEN LET m == Data.wmts.matrices[c.a[3] + 1] IN
          <<m.tlx + c.a[1] * m.tw * m.res, m.tly - (c.a[2] + 1) * m.th * m.res,
            m.tlx + (c.a[1] + 1) * m.tw * m.res, m.tly - c.a[2] * m.th * m.res>>
@@ -43,7 +55,11 @@ RealClient(c) ==
          <<Data.tms.origin[1] + c.a[1] * Data.tms.w * upp, Data.tms.origin[2] + c.a[2] * Data.tms.h * upp,
            Data.tms.origin[1] + (c.a[1] + 1) * Data.tms.w * upp, Data.tms.origin[2] + (c.a[2] + 1) * Data.tms.h * upp>>
 
-Binding(c) == B4(c.rect) = Served(G, c.f, T3(c.a))            \* real address mapping = model
+Binding(c) == IF c.f = "wmsc" THEN B4(c.rect) = ServedWMSC(G, WBox, T3(c.a))
+              ELSE B4(c.rect) = Served(G, c.f, T3(c.a))            \* real address mapping = model
+\* an advertised WMS-C address the real service refused: the model predicts exactly these refusals
+RefusedBinding(c) == ServedWMSC(G, WBox, T3(c.a)) = NoRect
+BadRefused == {i \in 1 .. Len(Data.refused) : ~RefusedBinding(Data.refused[i])}
 \* C02 on observed values.  /tiles?origin=nw has no capabilities of its own (compared with the WMTS matrices when
 \* WMTS is offered); KML has none either (TMS convention, only meaningful without a profile level shift)
 Property(c) == ((c.f # "tms_nw" \/ Data.wmts.offered) /\ (c.f # "kml" \/ Local)) => B4(c.rect) = RealClient(c)
@@ -51,6 +67,7 @@ Property(c) == ((c.f # "tms_nw" \/ Data.wmts.offered) /\ (c.f # "kml" \/ Local))
 BadBinding == {i \in 1 .. Len(Data.tiles) : ~Binding(Data.tiles[i])}
 BadProperty == {i \in 1 .. Len(Data.tiles) : ~Property(Data.tiles[i])}
 BadPropertyOf(f) == {i \in BadProperty : Data.tiles[i].f = f}
+WmscModelOK == Data.wmsc.offered => (WmscConsistent(G, WBox) <=> WmscExpect(G, WBox))
 First(S) == IF S = {} THEN 0 ELSE CHOOSE i \in S : \A j \in S : i <= j
 
 \* --- pure model statement for this grid: characterisation of when capabilities and addresses agree ---
@@ -59,7 +76,9 @@ CrossOK == Local => \A l \in Levels(G) : Offered(G, "wmts") => CrossService(G, l
 
 ASSUME PrintT(<<"verdict", [tmscap |-> TmsCapOK, tmsorigin |-> TmsOriginOK, wmtscap |-> WmtsCapOK, model |-> ModelOK, cross |-> CrossOK,
                             binding |-> First(BadBinding), nbinding |-> Cardinality(BadBinding),
-                            property |-> [f \in Flavours |-> First(BadPropertyOf(f))], nproperty |-> Cardinality(BadProperty),
+                            property |-> [f \in Flavours \cup {"wmsc"} |-> First(BadPropertyOf(f))], nproperty |-> Cardinality(BadProperty),
+                            wmsccap |-> WmscCapOK, wmscmodel |-> WmscModelOK, wmscexpect |-> (Data.wmsc.offered => WmscExpect(G, WBox)),
+                            refusedbinding |-> First(BadRefused),
                             expect_tms |-> Expect(G, G.bbox, "tms")]>>)
 VARIABLE dummy
 TraceSpec == dummy = 0 /\ [][UNCHANGED dummy]_dummy
